@@ -355,7 +355,10 @@ edges:
 		if gs[i].n != gs[j].n {
 			return gs[i].n < gs[j].n
 		}
-		return gs[i].cond < gs[j].cond
+		if gs[i].cond != gs[j].cond {
+			return gs[i].cond < gs[j].cond
+		}
+		return gs[i].val < gs[j].val
 	})
 	// the last group is "otherwise"
 	s := gs[len(gs)-1].val
